@@ -470,7 +470,8 @@ class ChartRules:
             return None
         atoms[3] = ("required", req_atom)
         guard_lits = [(a, p) for a, p in bc.cond if a[0] != "inloop"]
-        pre = [(a, p) for a, p in guard_lits if not any(strip(x) == tag or strip(x) == want for x in subterms(a))]
+        # literals established before the loop (the required-section guard): they mention neither the loop element nor the selection
+        pre = [(a, p) for a, p in guard_lits if not any(x == ("elem", loop.id) or strip(x) == want for x in subterms(a))]
         inl = [e for e in s.exits if e.loops]
         for e in inl:
             if e.kind in ("raise", "ret", "break"):
